@@ -49,6 +49,8 @@ package olareg
 //@   ensures [status-class] w.status == 200 || w.status == 206 || w.status == 304 || w.status == 412 || w.status == 416 || w.status == 400 || w.status == 404 || w.status == 500
 //@   ensures [no-5xx-without-fault] w.status >= 500 ==> fault()
 //@   ensures [digest-header]{C01} w.status == 200 || w.status == 206 ==> digestOK(arg) && header(w, types.HeaderDockerDigest) == arg
+//@   -- the bytes served come from the reader the store handed out for exactly the digest that is reported
+//@   assert [served-is-reported-digest]{C01} before "http.ServeContent(": rdr.of == header(w, types.HeaderDockerDigest) && rdr.of == arg
 
 //@ func (s *Server) blobDelete$1(w http.ResponseWriter, r *http.Request)
 //@   props C15 C14
@@ -76,6 +78,11 @@ package olareg
 //@   props C15 C01 C02
 //@   requires handlerPre(s, w, r)
 //@   requires [name-valid]{C16} nameOK(repoStr)
+//@   -- the bytes served come from the reader the store handed out for exactly the digest that is reported, also after
+//@   -- content negotiation picked a child of an index; by digest, that digest is the one in the URL
+//@   assert [served-is-reported-digest]{C01} before "http.ServeContent(": rdr.of == header(w, types.HeaderDockerDigest) && rdr.of == desc.Digest
+//@   assert [by-digest-serves-that-digest]{C01} before "http.ServeContent(": !re_RefTagRE(arg) && reqheader(r, "Accept") == "" ==> rdr.of == arg
+//@   assert [media-type-reported]{C02} before "http.ServeContent(": header(w, "Content-Type") == desc.MediaType
 //@   ensures [status-class] w.status == 200 || w.status == 206 || w.status == 304 || w.status == 412 || w.status == 416 || w.status == 400 || w.status == 404 || w.status == 500
 //@   ensures [no-5xx-without-fault] w.status >= 500 ==> fault()
 
@@ -254,10 +261,23 @@ package olareg
 //@             400 <= resp.status && resp.status < 500 && mutations() == old(mutations())
 //@   ensures [reads-do-not-mutate]{C14} req.Method == "GET" || req.Method == "HEAD" ==> mutations() == old(mutations())
 //@   ensures [lock-released] !held(s.mu)
+//@   -- the switches gate exactly their handlers (C14, C19): a handler that changes state is only built when its switch is on
+//@   assert [manifest-put-gated]{C14,C19} before "s.manifestPut(": *s.conf.API.PushEnabled && req.Method == "PUT"
+//@   assert [manifest-delete-gated]{C14,C19} before "s.manifestDelete(": *s.conf.API.DeleteEnabled && req.Method == "DELETE"
+//@   assert [blob-delete-gated]{C14,C19} before "s.blobDelete(": *s.conf.API.DeleteEnabled && *s.conf.API.Blob.DeleteEnabled && req.Method == "DELETE"
+//@   assert [upload-post-gated]{C14,C19} before "s.blobUploadPost(": *s.conf.API.PushEnabled && req.Method == "POST"
+//@   assert [upload-patch-gated]{C14,C19} before "s.blobUploadPatch(": *s.conf.API.PushEnabled && req.Method == "PATCH"
+//@   assert [upload-put-gated]{C14,C19} before "s.blobUploadPut(": *s.conf.API.PushEnabled && req.Method == "PUT"
+//@   assert [upload-delete-gated]{C14,C19} before "s.blobUploadDelete(": *s.conf.API.PushEnabled && req.Method == "DELETE"
+//@   assert [referrers-gated]{C19} before "s.referrerGet(": *s.conf.API.Referrer.Enabled && (req.Method == "GET" || req.Method == "HEAD")
 //@   -- rate limit (C19): the entry of the address counts the requests of the current accounting second exactly;
 //@   -- a request is refused exactly when its count exceeds the limit; without a limit nothing is refused
 //@   assert [rate-entry]{C19} before "s.mu.Unlock()": limit != nil && limit.count == count
 //@   assert [rate-window]{C19} before "s.mu.Unlock()": old(allocated(now(limit))) && limit.first - old(now(limit).first) == 0 ==> count == old(now(limit).count) + 1
+//@   -- a window starts at the time of the request that opens it
+//@   assert [rate-window-start]{C19} before "s.mu.Unlock()": limit.first == now || (old(allocated(now(limit))) && limit.first == old(now(limit).first) && count == old(now(limit).count) + 1)
+//@   -- and a window that is older than a second is never continued
+//@   assert [rate-window-expires]{C19} before "s.mu.Unlock()": old(allocated(now(limit))) && now - old(now(limit).first) > 1000000000 ==> count == 1 && limit.first == now
 //@   assert [rate-new-window]{C19} before "s.mu.Unlock()": count == 1 || (old(allocated(now(limit))) && limit.first == old(now(limit).first) && count == old(now(limit).count) + 1)
 //@   assert [rate-deny]{C19} before "WriteHeader(http.StatusTooManyRequests)": s.conf.API.RateLimit > 0 && count > s.conf.API.RateLimit
 //@   assert [rate-pass]{C19} before call matchV2#1: s.conf.API.RateLimit > 0 ==> count <= s.conf.API.RateLimit
